@@ -553,10 +553,15 @@ def Grid.edgesZ2 (G : Grid) : List (Edge Z2) :=
   (List.range (G.rows * G.cols)).flatMap fun v =>
     (G.nbrs v).map fun nb => (v, nb.1, if nb.2.2 then (⟨0, nb.2.1⟩ : Z2) else ⟨nb.2.1, 0⟩)
 
-/-- exact optimum: Dijkstra over `ℤ[√2]` (A* mirror with `h = 0`), no cut-offs -/
+/-- the neighbour generator with `ℤ[√2]` weights (= `adjOf G.edgesZ2`, without scanning the edge list) -/
+def Grid.adjZ2 (G : Grid) (v : Nat) : List (Nat × Z2) :=
+  (G.nbrs v).map fun nb => (nb.1, if nb.2.2 then (⟨0, nb.2.1⟩ : Z2) else ⟨nb.2.1, 0⟩)
+
+/-- exact optimum: Dijkstra over `ℤ[√2]` (A* mirror with `h = 0`), no cut-offs; its answer is
+certificate-checked against `G.edgesZ2` by the driver -/
 def gridExact (G : Grid) (s t : Nat) : HRes Z2 :=
-  let E := G.edgesZ2
-  hSearch Z2.num (G.rows * G.cols) E.length (adjOf E) (fun g _ => g) s (· == t) (E.length + 2) none .OPTIMAL
+  let n := G.rows * G.cols
+  hSearch Z2.num n (8 * n) G.adjZ2 (fun g _ => g) s (· == t) (8 * n + 2) none .OPTIMAL
 
 /-- potential for the grid certificate -/
 def cappedPotZ2 (n : Nat) (g : Tab Z2) (c : Z2) : Tab Z2 :=
